@@ -650,6 +650,72 @@ func c09OverlappingDrains(first, second string) *Scenario {
 	return sc
 }
 
+// c09DrainTimesOutOnOne: a pause / stop drains two healthy targets, one of them idle and the other with a request in
+// flight that outlasts the drain timeout (so the two drains end differently: at once, and by the deadline). Both targets
+// pass every probe throughout; once the command has returned and the service is resumed the rotation must use both.
+func c09DrainTimesOutOnOne(cmd string, busy int) *Scenario {
+	sc := &Scenario{Name: fmt.Sprintf("C09 %s whose drain times out on %d of 3 targets, then resume", cmd, busy), Horizon: 60 * time.Second}
+	const host = "a.example.com"
+	var late []*ReqObs
+	names := []string{"ta:80", "tb:80", "tc:80"}
+	sc.Run = func(w *World) {
+		late = nil
+		for _, n := range names {
+			w.AddTarget(n)
+		}
+		t0 := w.Now()
+		if r := w.Deploy(deployArgs("s1", names, []string{host}, nil)); r.Err != nil {
+			w.Note("setup: %v", r.Err)
+			return
+		}
+		time.Sleep(t0 + vI + 100*time.Millisecond - w.Now())
+		for i := 0; i < busy; i++ {
+			i := i
+			vsched.GoTagged("client", func() { w.Do(ReqSpec{ID: fmt.Sprintf("slow%d", i), Host: host, Plan: "hang"}) })
+		}
+		time.Sleep(100 * time.Millisecond)
+		w.S.SetWindow(true)
+		if cmd == "pause" {
+			w.Pause("s1", 300*time.Millisecond, vMaxPause)
+		} else {
+			w.Stop("s1", 300*time.Millisecond, "m")
+		}
+		w.Resume("s1")
+		w.S.SetWindow(false)
+		if w.Now() >= t0+2*vI {
+			return // (only with stalls) the next probe tick has passed
+		}
+		for i := 0; i < 6; i++ {
+			late = append(late, w.Do(ReqSpec{ID: fmt.Sprintf("late%d", i), Host: host}))
+		}
+	}
+	sc.Check = func(w *World) []Violation {
+		var vs []Violation
+		for _, n := range w.Notes {
+			vs = append(vs, Violation{"C09", "setup", n})
+		}
+		if len(vs) > 0 || len(late) != 6 || w.HadStall() {
+			return vs
+		}
+		counts := map[string]int{}
+		for _, r := range late {
+			if r.Status != 200 {
+				counts[fmt.Sprintf("status %d via %s", r.Status, lastSites(r.Sites, 2))]++
+			} else {
+				counts[r.ServedBy()]++
+			}
+		}
+		for _, n := range names {
+			if counts[n] != 2 {
+				vs = append(vs, Violation{"C09", "healthy-targets-not-all-used after-drain-timeout", fmt.Sprintf("all three targets passed every probe and no command is running; 6 requests after the resume were answered %v", counts)})
+				break
+			}
+		}
+		return vs
+	}
+	return sc
+}
+
 func checkC09(t *testing.T, job *Job, res *Result) {
 	tier := job.Tier
 	if job.Replay != nil {
@@ -679,6 +745,13 @@ func checkC09(t *testing.T, job *Job, res *Result) {
 		sc.Bounds = &Bounds{D: 1, S: 0}
 		scs = append(scs, sc)
 	}
+	for _, cmd := range []string{"pause", "stop"} {
+		for busy := 1; busy <= 3; busy++ {
+			sc := c09DrainTimesOutOnOne(cmd, busy)
+			sc.Bounds = &Bounds{D: 1, S: 0}
+			scs = append(scs, sc)
+		}
+	}
 	for _, x := range [][3]int{{2, 2, 1}, {2, 2, 2}, {3, 2, 2}, {3, 3, 1}} {
 		sc := c09Concurrent(x[0], x[1], x[2])
 		sc.Bounds = &Bounds{D: 2, S: 0}
@@ -688,6 +761,6 @@ func checkC09(t *testing.T, job *Job, res *Result) {
 	if tier == "thorough" {
 		b = Bounds{D: 2, S: 1, Total: 2}
 	}
-	res.Rule = "configurations = 1..3 targets x per-target post-deploy probe script of length 4 over {ok, fail} (failure kinds refused/500/slow) x client threads issuing bursts of 2k+1 requests after every probe tick; per configuration every schedule within the deviation bounds; oracle: healthy set from probe results, membership, 503 when empty, strict rotation per run, probe cadence; plus 2-3 clients issuing requests concurrently at 2-3 steadily healthy targets (<=2 deviations): per-target counts within floor/ceil of n/k; plus a target whose probe outcome changes while a pause is draining it (requests in flight keep the drain open over a probe tick): after the resume the rotation follows the probes"
+	res.Rule = "configurations = 1..3 targets x per-target post-deploy probe script of length 4 over {ok, fail} (failure kinds refused/500/slow) x client threads issuing bursts of 2k+1 requests after every probe tick; per configuration every schedule within the deviation bounds; oracle: healthy set from probe results, membership, 503 when empty, strict rotation per run, probe cadence; plus 2-3 clients issuing requests concurrently at 2-3 steadily healthy targets (<=2 deviations): per-target counts within floor/ceil of n/k; plus a target whose probe outcome changes while a pause is draining it (requests in flight keep the drain open over a probe tick): after the resume the rotation follows the probes; plus a pause / stop whose drain ends at once on the idle targets and by its deadline on 1..3 busy ones of three: after the resume all three are used"
 	runS(t, job, res, "C09", scs, b, 5000)
 }
